@@ -1173,4 +1173,97 @@ theorem hasAttr_tagDel (t : TagAttrs) (k k' : PStr) :
 theorem dictDel_idem (d : Items) (k : PStr) : dictDel (dictDel d k) k = dictDel d k := by
   simp [dictDel, List.filter_filter]
 
+/-! ### the scanner is the regex engine's `findall` -/
+
+theorem takeWhile_append_dropWhile_nonws (s : PStr) :
+    s = s.takeWhile (fun x => !isWs x) ++ s.dropWhile (fun x => !isWs x) :=
+  (List.takeWhile_append_dropWhile).symm
+
+theorem dropWhile_head_ws (s : PStr) :
+    s.dropWhile (fun x => !isWs x) = [] ∨
+      ∃ w r, s.dropWhile (fun x => !isWs x) = w :: r ∧ isWs w = true := by
+  induction s with
+  | nil => left; rfl
+  | cons c cs ih =>
+    cases hc : isWs c with
+    | true => right; exact ⟨c, cs, by simp [List.dropWhile, hc], hc⟩
+    | false => simpa [List.dropWhile, hc] using ih
+
+theorem mem_takeWhile_sat (p : Nat → Bool) (s : PStr) (x : Nat) (h : x ∈ s.takeWhile p) : p x = true := by
+  induction s with
+  | nil => simp at h
+  | cons c cs ih =>
+    cases hc : p c with
+    | false => simp [List.takeWhile, hc] at h
+    | true =>
+      simp only [List.takeWhile, hc] at h
+      rcases List.mem_cons.mp h with rfl | h
+      · exact hc
+      · exact ih h
+
+theorem findallGo_eq (fuel : Nat) (s : PStr) (h : s.length < fuel) : findallGo fuel s = splitGo s [] := by
+  induction fuel generalizing s with
+  | zero => omega
+  | succ f ih =>
+    cases s with
+    | nil => simp [findallGo, splitGo]
+    | cons c cs =>
+      simp only [findallGo]
+      cases hc : isWs c with
+      | true =>
+        simp only [if_true, splitGo, hc, List.isEmpty_nil]
+        exact ih cs (by simp at h; omega)
+      | false =>
+        simp only [Bool.false_eq_true, if_false]
+        have hdec := takeWhile_append_dropWhile_nonws (c :: cs)
+        have htw : ∀ x ∈ (c :: cs).takeWhile (fun x => !isWs x), isWs x = false := by
+          intro x hx
+          have := mem_takeWhile_sat _ _ x hx
+          simpa using this
+        have hne : (c :: cs).takeWhile (fun x => !isWs x) ≠ [] := by simp [List.takeWhile, hc]
+        have hlen : ((c :: cs).dropWhile (fun x => !isWs x)).length < f := by
+          have h1 : ((c :: cs).dropWhile (fun x => !isWs x)).length ≤ cs.length := by
+            simp only [List.dropWhile, hc, Bool.not_false]
+            exact (List.dropWhile_sublist _).length_le
+          simp at h; omega
+        rw [ih _ hlen]
+        conv => rhs; rw [hdec]
+        rw [splitGo_tok _ _ _ htw, List.nil_append]
+        rcases dropWhile_head_ws (c :: cs) with h0 | ⟨w, r, h1, hw⟩
+        · rw [h0, splitGo_nil_cur _ hne]; simp [splitGo]
+        · rw [h1, splitGo_ws_cur _ _ _ hw hne]
+          simp [splitGo, hw]
+
+theorem findall_eq_splitWs (s : PStr) : findallNonWs s = splitWs s :=
+  findallGo_eq _ s (by omega)
+
+/-! ### without repeated attributes the duplicate policy is never consulted -/
+
+theorem startTagLoop_nodup (md : Nat) (cls : DictClass) (p1 p2 : OnDup) (attrs : List (PStr × Option PStr)) (d : Items)
+    (h : (keys d ++ attrs.map (·.1)).Nodup) :
+    startTagLoop md cls p1 attrs d = startTagLoop md cls p2 attrs d := by
+  induction attrs generalizing d with
+  | nil => simp [startTagLoop]
+  | cons kv rest ih =>
+    obtain ⟨k, v⟩ := kv
+    have hk : dictHas d k = false := by
+      cases hh : dictHas d k with
+      | false => rfl
+      | true =>
+        have hm := (dictHas_iff_mem d k).mp hh
+        have := (List.nodup_append.mp h).2.2 k hm k (by simp)
+        exact absurd rfl this
+    simp only [startTagLoop, hk, Bool.false_eq_true, if_false, setItem_str, Res.bind]
+    apply ih
+    rw [keys_dictSet, hk]
+    simpa using h
+
+theorem hasDupKey_false_nodup (ks : List PStr) (h : hasDupKey ks = false) : ks.Nodup := by
+  induction ks with
+  | nil => simp
+  | cons k ks ih =>
+    simp only [hasDupKey, Bool.or_eq_false_iff] at h
+    refine List.nodup_cons.mpr ⟨?_, ih h.2⟩
+    simpa using h.1
+
 end BS.Attrs
